@@ -3573,7 +3573,12 @@ debug={debug},
         ``\\r\\n`` in Windows)."""
         try:
             with open(filepath, "w", encoding=self.encoding) as newconf:
-                for line in self.get_text():
+                lines = self.get_text()
+                if len(lines) > 0 and lines[-1] == "":
+                    # A trailing empty string is the text after the
+                    # final newline; do not write another newline for it
+                    lines = lines[:-1]
+                for line in lines:
                     newconf.write(line + "\n")
             return True
         except BaseException as ee:
